@@ -25,6 +25,12 @@ func strayPod(ns, name, node string, labels map[string]string, owner string) *co
 	return p
 }
 
+func ownedByKind(p *corev1.Pod, kind, name string) *corev1.Pod {
+	t := true
+	p.OwnerReferences = []metav1.OwnerReference{{APIVersion: "apps/v1", Kind: kind, Name: name, Controller: &t}}
+	return p
+}
+
 func oldDS(ns, name string, sel map[string]string) *appsv1.DaemonSet {
 	return &appsv1.DaemonSet{ObjectMeta: metav1.ObjectMeta{Namespace: ns, Name: name},
 		Spec: appsv1.DaemonSetSpec{Selector: &metav1.LabelSelector{MatchLabels: sel}}}
@@ -75,7 +81,9 @@ func TestC12(t *testing.T) {
 			extra: []client.Object{oldDS("ns", "old", map[string]string{"app": "agent"}),
 				strayPod("ns", "old-n1", "n1", map[string]string{"app": "agent"}, "old"),
 				strayPod("ns", "unowned-n2", "n2", map[string]string{"app": "agent"}, ""),
-				strayPod("other", "old-n2", "n2", map[string]string{"app": "agent"}, "old")},
+				strayPod("other", "old-n2", "n2", map[string]string{"app": "agent"}, "old"),
+				// a pod of a StatefulSet that happens to carry the DaemonSet's name and labels: not the DaemonSet's pod
+				ownedByKind(strayPod("ns", "old-0", "n1", map[string]string{"app": "agent"}, ""), "StatefulSet", "old")},
 			raw: true, alpha: &w.Alpha{}, budget: 0},
 		// the same with an old pod on every node (the migration takes several syncs) next to unowned pods matching the selector
 		{name: "S6-migration-two-old-pods", nodes: []string{"n1", "n2"}, eds: []w.EDSOpt{w.WithAnnotation(v1.ExtendedDaemonSetOldDaemonsetAnnotationKey, "old"), w.WithRolling("1", "", 0, 0)},
